@@ -1,8 +1,150 @@
-(* C16 — spatial index queries agree with exhaustive search.  Statements only; proofs live in
-   Trees/OctreeProofs.v, Trees/BvhProofs.v, Trees/ElemProofs.v. *)
-From PF Require Import Trees.Octree Trees.OctreeProofs.
+(* C16 — spatial index queries agree with exhaustive search.
+   Statements only; proofs live in Trees/OctreeProofs.v, Trees/BvhProofs.v, Trees/ElemProofs.v.
+
+   Model: Trees/Octree.v (newOctree and the queries of trees/octree.go, AABB operations of
+   math/geometry/aabb.go) and Trees/Bvh.v (BVHNode.Hit, HitList.Hit).  Coordinates are integers
+   (Go coordinate x4), ray parameters rationals; everything below is exact and holds for EVERY list
+   of (well-formed) element boxes, EVERY maximum depth (Some d, for any d including 0, or None = the
+   automatic depth) and EVERY query.
+
+   brute f boxes  =  the indices i (in increasing order) of the boxes with f (box i) = true — the
+   exhaustive scan.                                                                              *)
+From PF Require Import Trees.Octree Trees.Bvh Trees.OctreeProofs Trees.BvhProofs Trees.ElemProofs.
+From Coq Require Import Permutation.
 Open Scope Z_scope.
 
+(* The invariant of the tree newOctree builds: every element occurs exactly once (the tree's elements
+   are a permutation of the numbered input), and every element stored in or below a cell has its
+   box inside that cell's box — at every level (inv is recursive over the children). *)
+Theorem inv_build : forall depth boxes t,
+  Forall wf_box boxes -> new_octree depth boxes = Some t ->
+  inv t /\ Permutation (tree_elems t) (number boxes).
+Proof. exact new_octree_inv. Qed.
+Print Assumptions inv_build.
+
+(* no tree exactly for the empty element set *)
+Theorem build_none_iff_empty : forall depth boxes, new_octree depth boxes = None <-> boxes = [].
+Proof. exact new_octree_none. Qed.
+Print Assumptions build_none_iff_empty.
+
+(* ElementsContainingPoint = the scan, from the invariant alone (even the order: the tree's own order) *)
 Theorem contains_eq_scan : forall p t, inv t -> containing t p = scan (inb p) t.
 Proof. exact containing_eq_scan. Qed.
 Print Assumptions contains_eq_scan.
+
+Theorem contains_eq_brute : forall depth boxes t p,
+  Forall wf_box boxes -> new_octree depth boxes = Some t ->
+  Permutation (containing t p) (brute (inb p) boxes).
+Proof. exact contains_eq_brute_thm. Qed.
+Print Assumptions contains_eq_brute.
+
+(* ElementsWithinRange: box distance <= d (squared comparison; a negative d selects nothing) *)
+Theorem within_eq_brute : forall depth boxes t p d,
+  Forall wf_box boxes -> new_octree depth boxes = Some t ->
+  Permutation (within t p d) (brute (fun b => negb (far b p d)) boxes).
+Proof. exact within_eq_brute_thm. Qed.
+Print Assumptions within_eq_brute.
+
+(* the slab test AABB.IntersectsRayInRange (with its kEpsilon inflation and the 1/0 = Inf cases) is
+   monotone: a ray that passes the test for a box and a parameter range passes it for every larger
+   box and every larger range.  This is what makes pruning by the cell / node box sound. *)
+Theorem slab_monotone : forall a b ry ra rb,
+  box_sub a b -> wf_box a -> (fst rb <= fst ra)%Q -> (snd ra <= snd rb)%Q ->
+  slab a ry ra = true -> slab b ry rb = true.
+Proof. exact slab_mono. Qed.
+Print Assumptions slab_monotone.
+
+(* ElementsIntersectingRay = the scan with the same slab test; TraverseIntersectingRay with an
+   iterator that leaves the range alone visits exactly the same elements in the same order *)
+Theorem ray_eq_brute : forall depth boxes t ry r,
+  Forall wf_box boxes -> new_octree depth boxes = Some t ->
+  Permutation (ray_hits t ry r) (brute (fun b => slab b ry r) boxes) /\
+  traverse (fun _ r => r) t ry r = ray_hits t ry r.
+Proof. exact ray_eq_brute_thm. Qed.
+Print Assumptions ray_eq_brute.
+
+(* ClosestPoint.  ekey i / cpt i = element i's own squared distance (scaled by kscale) and closest
+   point for the query q.  Hypothesis on the elements: no element is nearer than its own box (true
+   as soon as the element's closest point lies in its box: closest_in_box_suffices below).
+   Then the search always answers on a non-empty set, the returned index i is an element, the
+   returned distance and point are element i's own (the index identifies the element that produced
+   the point), and no element at all is nearer (ties: some minimiser). *)
+Theorem closest_eq_brute : forall (P : Type) (ekey : nat -> Z) (cpt : nat -> P) kscale q depth boxes t,
+  0 <= kscale -> Forall wf_box boxes ->
+  (forall i, (i < length boxes)%nat -> boxdist2 (nth i boxes zero_pt_box) q * kscale <= ekey i) ->
+  new_octree depth boxes = Some t ->
+  (exists r, closest P ekey cpt kscale q t = Some r) /\
+  forall i k p, closest P ekey cpt kscale q t = Some (i, k, p) ->
+    (i < length boxes)%nat /\ k = ekey i /\ p = cpt i /\
+    forall j, (j < length boxes)%nat -> k <= ekey j.
+Proof. exact closest_eq_brute_thm. Qed.
+Print Assumptions closest_eq_brute.
+
+(* the element-instance hypothesis in geometric form: a point of the box is at least as far as the box *)
+Theorem closest_in_box_suffices : forall b q c, inb c b = true -> boxdist2 b q <= dist2 c q.
+Proof. exact boxdist2_le_in. Qed.
+Print Assumptions closest_in_box_suffices.
+
+(* instances.  Points: the point itself.  Segments: every coordinate of ClosestPointOnLine lies
+   between the end points' coordinates, for every parameter.  Triangles: the projection accepted by the
+   repaired PointInSide (three sign tests, 26a68bd) lies in the triangle's box (else the answer is a
+   point of an edge = a segment). *)
+Theorem point_closest_in_box : forall a, inb a (point_box a) = true.
+Proof. exact point_closest_in_bbox. Qed.
+Print Assumptions point_closest_in_box.
+
+Theorem seg_closest_in_box : forall a b t : Q,
+  ((a <= seg_at a b t /\ seg_at a b t <= b) \/ (b <= seg_at a b t /\ seg_at a b t <= a))%Q.
+Proof. exact seg_at_between. Qed.
+Print Assumptions seg_closest_in_box.
+
+Theorem tri_closest_in_bbox : forall a b c p,
+  0 < dot (cross (vsub b a) (vsub c a)) (cross (vsub b a) (vsub c a)) ->
+  coplanar a b c p = true -> tri_in_side a b c p = true -> inb p (tri_box a b c) = true.
+Proof. exact tri_in_side_in_bbox. Qed.
+Print Assumptions tri_closest_in_bbox.
+
+(* the pinned PointInSide (two sign tests) breaks that instance: it accepts a point of the plane
+   outside the triangle's box (so the defect of DESIGN §5 entry 28 is in modeling/tri.go, not in the tree) *)
+Theorem tri_point_in_side_pinned_refuted :
+  exists a b c p,
+    0 < dot (cross (vsub b a) (vsub c a)) (cross (vsub b a) (vsub c a)) /\
+    coplanar a b c p = true /\ tri_in_side_pinned a b c p = true /\
+    inb p (tri_box a b c) = false /\ tri_in_side a b c p = false.
+Proof. exact tri_point_in_side_refuted. Qed.
+Print Assumptions tri_point_in_side_pinned_refuted.
+
+(* BVH.  For any hierarchy whose node boxes contain the boxes below them (binv; implied by the node
+   boxes NewBVHTree computes: bvh_structure_ok), leaves whose hits lie in their own box, and lower
+   bound 0 (the recorded Distance is the hit parameter): BVHNode.Hit returns the same hit flag and the
+   same nearest distance as HitList.Hit over any list with the same members — whatever the split axes
+   were (ties: which of several equally near triangles is reported may differ). *)
+Theorem bvh_hit_eq_list : forall lbox tv dist ry lo,
+  (forall i t, tv i = Some t -> (dist i == t)%Q) ->
+  (forall i t, tv i = Some t -> slab (lbox i) ry (lo, t) = true) ->
+  (forall i, wf_box (lbox i)) ->
+  forall t l hi,
+    binv lbox t -> (forall i, In i (leaves t) <-> In i l) ->
+    same_answer (bhit tv dist ry lo t hi None) (list_hit tv dist l hi false None).
+Proof. exact bvh_hit_eq_list_thm. Qed.
+Print Assumptions bvh_hit_eq_list.
+
+Theorem bvh_structure_ok : forall lbox t, bvh_wfb lbox t = true -> binv lbox t.
+Proof. exact bvh_wfb_binv. Qed.
+Print Assumptions bvh_structure_ok.
+
+(* non-vacuity: five elements (three on the centre planes), depth 2: the tree has inner cells, the
+   hypotheses hold and the queries return non-trivial answers *)
+Example c16_example :
+  let boxes := [((0,0,0),(0,0,0)); ((8,8,8),(8,8,8)); ((4,4,4),(4,4,4)); ((0,8,4),(4,8,8)); ((-8,0,0),(-4,4,0))] in
+  match new_octree (Some 2%nat) boxes with
+  | Some t =>
+      tnodes t = 7%nat /\
+      containing t (4,8,4) = [3%nat] /\
+      within t (4,4,4) 4 = [3; 2]%nat /\
+      ray_hits t ((-12,2,0), (1,0,0)%Q) (0, 100)%Q = [4%nat] /\
+      closest pt (fun i => dist2 (fst (nth i boxes zero_pt_box)) (7,7,7)) (fun i => fst (nth i boxes zero_pt_box)) 1 (7,7,7) t
+        = Some (1%nat, 3, (8,8,8))
+  | None => False
+  end.
+Proof. vm_compute. repeat split; reflexivity. Qed.
